@@ -1,4 +1,5 @@
 """C03: the CFG, flattened to instructions, is the control flow of the edited listing."""
+import re
 import gtirb
 
 from harness.c01 import expected_chunks
@@ -149,6 +150,11 @@ class C03(IRProp):
             # F2: return edges copied / kept for a call that the same rewrite deletes, or for a callee whose entry block is deleted
             calls = {i for i, x in enumerate(case.blocks) if x["kind"] == "c" and x["ins"][-1][0] == "call"}
             entries = {i for i, x in enumerate(case.blocks) if x.get("fb") == 0 and x.get("func") is not None}
+            # ... or any other block that a call (of the input or of a patch) targets: deleting it whole makes the call enter what follows
+            entries |= {x["ins"][-1][1] for x in case.blocks if x["kind"] == "c" and x["ins"][-1][0] == "call" and isinstance(x["ins"][-1][1], int)}
+            for (_, _, _, _, patch, _) in case.mods:
+                if isinstance(patch, str):
+                    entries |= {int(k) for k in re.findall(r"call L(\d+)", patch)}
             for (bi, t, off, ln, patch, _) in case.mods:
                 if t in ("del", "rep") and off + ln == case.size(bi) and (bi in calls or ln == case.size(bi) and bi in entries):
                     return "C03-return-edges-of-deleted-call-or-entry"
